@@ -20,6 +20,7 @@ import (
 	"strings"
 	"time"
 
+	kbhosts "github.com/kevinburke/hostsfile/lib"
 	"github.com/saucelabs/forwarder"
 	"github.com/saucelabs/forwarder/hostsfile"
 	"github.com/saucelabs/forwarder/middleware"
@@ -58,12 +59,17 @@ type Spec struct {
 var denyRules = []string{`evil\.test$`, `^blocked\.`, `-^ok\.evil\.test$`}
 var timeFrame = []TF{{2, 9, 17}, {6, 0, 24}} // Tue 9-17, Sat 0-24
 
-// Clock values (weekday, hour) tried for configurations with a time frame: inside, both boundaries, outside.
-var clocks = [][2]int{{2, 10}, {2, 9}, {2, 16}, {2, 17}, {2, 8}, {1, 10}, {6, 0}, {6, 23}, {0, 12}}
+// Clock values (weekday, hour, minute), local time of a zone with a FRACTIONAL offset (+05:30).  The proxy of a
+// configuration lives through the whole sequence; consecutive pairs cross an edge of a frame without leaving the
+// UTC hour (Tue 16:45 -> 17:15 is 11:15 -> 11:45 UTC), so a verdict remembered per UTC hour, per process or per
+// configuration shows.
+var clocks = [][3]int{{2, 16, 45}, {2, 17, 15}, {2, 8, 45}, {2, 9, 15}, {6, 23, 45}, {0, 0, 15}, {1, 10, 0}, {2, 10, 0}, {5, 23, 40}, {6, 0, 10}}
 
-func clockTime(day, hour int) time.Time {
+var clockZone = time.FixedZone("+0530", 5*3600+1800)
+
+func clockTime(day, hour, min int) time.Time {
 	// 2026-03-01 is a Sunday
-	return time.Date(2026, 3, 1+day, hour, 30, 0, 0, time.UTC)
+	return time.Date(2026, 3, 1+day, hour, min, 0, 0, clockZone)
 }
 
 type recordingMatcher struct {
@@ -199,6 +205,16 @@ func credVariants() []credVariant {
 		{"swapped", [][2]string{pa("Basic " + b64(authPass+":"+authUser))}},
 		{"colon-shift", [][2]string{pa("Basic " + b64("user:pa"+":ss"))}}, // same bytes as exact
 		{"user-with-colon", [][2]string{pa("Basic " + b64("user:pa:"+"ss"))}},
+		{"pass-trailing-nul", [][2]string{pa("Basic " + b64(authUser+":"+authPass+"\x00"))}},
+		{"pass-trailing-nuls", [][2]string{pa("Basic " + b64(authUser+":"+authPass+"\x00\x00\x00"))}},
+		{"user-trailing-nul", [][2]string{pa("Basic " + b64(authUser+"\x00:"+authPass))}},
+		{"both-trailing-nul", [][2]string{pa("Basic " + b64(authUser+"\x00:"+authPass+"\x00"))}},
+		{"pass-leading-nul", [][2]string{pa("Basic " + b64(authUser+":\x00"+authPass))}},
+		{"pass-trailing-ctl", [][2]string{pa("Basic " + b64(authUser+":"+authPass+"\x01"))}},
+		{"pass-trailing-lf", [][2]string{pa("Basic " + b64(authUser+":"+authPass+"\n"))}},
+		{"pass-trailing-space", [][2]string{pa("Basic " + b64(authUser+":"+authPass+" "))}},
+		{"pass-trailing-ff", [][2]string{pa("Basic " + b64(authUser+":"+authPass+"\xff"))}},
+		{"pass-inner-nul", [][2]string{pa("Basic " + b64(authUser+":pa:\x00ss"))}},
 		{"unpadded", [][2]string{pa("Basic " + strings.TrimRight(enc, "="))}},
 		{"garbage-after", [][2]string{pa("Basic " + enc + "!")}},
 		{"garbage-after-pad", [][2]string{pa("Basic " + enc + "QQ==")}},
@@ -250,6 +266,9 @@ func hostVariants(aliases []string) []hostVariant {
 		hostVariant{"deny-idna", "\u24d4vil.test"}, hostVariant{"plain-idna", "\u24d4xample.test"},
 		hostVariant{"v6-unspec-zone", "[::%25lo]"}, hostVariant{"v6-loop-zone", "[::1%25lo]"},
 		hostVariant{"v6-mapped-loop-zone", "[::ffff:127.0.0.1%25lo]"})
+	hs = append(hs, hostVariant{"alias-as-written", "DevBox-01"}, hostVariant{"alias-as-written2", "MixedCase.Example"},
+		hostVariant{"alias-as-written3", "Ip6-Loopback-VF"}, hostVariant{"alias-nonlocal", "NotLocal-Alias"},
+		hostVariant{"alias-nonlocal-lower", "notlocal-alias"})
 	for i, a := range aliases {
 		hs = append(hs, hostVariant{fmt.Sprintf("alias%d", i), a}, hostVariant{fmt.Sprintf("alias%d-upper", i), strings.ToUpper(a)})
 	}
@@ -335,7 +354,11 @@ func coqConfig(s Spec, denied []string, aliases []string, idnaTable map[string]s
 
 type Case struct {
 	Spec    Spec               `json:"spec"`
-	Clock   [2]int             `json:"clock"`
+	Clock   [3]int             `json:"clock"`
+	// the session that ran on the same proxy at the previous clock value (history: needed to replay
+	// a verdict that depends on what the proxy saw before)
+	PrevClock   *[3]int            `json:"prev_clock,omitempty"`
+	PrevSession []accessrig.RawReq `json:"prev_session,omitempty"`
 	Session []accessrig.RawReq `json:"session"`
 	Index   int                `json:"index"`
 	Req     ReqSpec            `json:"req"`
@@ -372,7 +395,7 @@ func targetsOf(o accessrig.Obs, upstreamAddr string) []string {
 	return out
 }
 
-func coqCase(s Spec, clock [2]int, raw accessrig.RawReq, o accessrig.Obs, targets []string, truth bool) (string, bool) {
+func coqCase(s Spec, clock [3]int, raw accessrig.RawReq, o accessrig.Obs, targets []string, truth bool) (string, bool) {
 	req, err := accessrig.ParseRaw(raw.Raw)
 	if err != nil {
 		return "", false
@@ -460,6 +483,20 @@ func basicCases(r *rng.R, n int) ([]string, []any) {
 			payload = string(bs)
 		case 5:
 			payload = b64(u+":"+p) + b64(":x")
+		}
+		if r.Chance(1, 6) {
+			// the right credentials with octets appended / prepended to one part
+			junk := []string{"\x00", "\x00\x00", "\x01", " ", "\n", "\xff", "\x7f"}[r.Intn(7)]
+			switch r.Intn(4) {
+			case 0:
+				payload = b64(u + ":" + p + junk)
+			case 1:
+				payload = b64(u + junk + ":" + p)
+			case 2:
+				payload = b64(junk + u + ":" + p)
+			case 3:
+				payload = b64(u + ":" + junk + p)
+			}
 		}
 		lines := [][2]string{{"Proxy-Authorization", r.Pick(schemes) + payload}}
 		if r.Chance(1, 5) {
@@ -561,7 +598,7 @@ func timeCases() ([]string, []any) {
 					if d2 != day && h%6 != 0 {
 						continue
 					}
-					m := e.Match(clockTime(d2, h))
+					m := e.Match(clockTime(d2, h, 30))
 					out = append(out, fmt.Sprintf("{| t_entry := {| tf_day := %d; tf_start := %d; tf_end := %d |}; t_day := %d; t_hour := %d; t_out := %s |}",
 						day, se[0], se[1], d2, h, coqfmt.Bool(m)))
 					js = append(js, map[string]any{"kind": "time", "day": day, "start": se[0], "end": se[1], "at_day": d2, "at_hour": h})
@@ -734,6 +771,16 @@ func main() {
 	m := Meta{ShardSize: 400, ShardKinds: map[string]int{}, ByStatus: map[string]int{}, ByMethod: map[string]int{},
 		ByCred: map[string]int{}, ByHost: map[string]int{}, ByPos: map[string]int{}}
 
+	// the hosts file the proxy reads (hostsfile.LocalhostAliases opens the Location variable of the
+	// kevinburke/hostsfile library): this machine's file plus loopback aliases written with capital letters
+	// and a non-loopback record
+	sys, _ := os.ReadFile(kbhosts.Location)
+	hostsPath := filepath.Join(*outDir, "hosts")
+	extra := "\n127.0.0.1\tDevBox-01 lowerbox\n::1\tIp6-Loopback-VF\n127.0.1.1\tMixedCase.Example\n10.9.8.7\tNotLocal-Alias\n"
+	if err := os.WriteFile(hostsPath, append(sys, extra...), 0o644); err != nil {
+		panic(err)
+	}
+	kbhosts.Location = hostsPath
 	aliases, err := hostsfile.LocalhostAliases()
 	if err != nil {
 		m.Errors = append(m.Errors, "hostsfile: "+err.Error())
@@ -760,7 +807,7 @@ func main() {
 
 	type job struct {
 		spec    Spec
-		clock   [2]int
+		clock   [3]int
 		session []accessrig.RawReq
 		reqs    []ReqSpec
 		connect *accessrig.RawReq // MITM: the CONNECT; session = requests inside the TLS session
@@ -780,27 +827,27 @@ func main() {
 			fmt.Println("replay: no session in the replay file (pure-function cases are replayed by the full run)")
 			os.Exit(3)
 		}
+		if c.PrevClock != nil && len(c.PrevSession) > 0 {
+			jobs = append(jobs, job{spec: c.Spec, clock: *c.PrevClock, session: c.PrevSession, reqs: make([]ReqSpec, len(c.PrevSession))})
+		}
 		jobs = append(jobs, job{spec: c.Spec, clock: c.Clock, session: c.Session, reqs: make([]ReqSpec, len(c.Session)), connect: c.Connect})
 	} else {
 		budget := 70
-		nclocks := 2
+		tfBudget := 12
 		if *tier == "thorough" {
-			budget, nclocks = 0, len(clocks)
+			budget, tfBudget = 0, 120
 		}
 		for _, s := range allSpecs(*tier) {
-			cl := [][2]int{clocks[0]}
+			cl := [][3]int{clocks[0]}
 			if s.TimeFrame != nil {
-				cl = nil
-				for i := 0; i < nclocks; i++ {
-					if *tier == "thorough" {
-						cl = append(cl, clocks[i])
-					} else {
-						cl = append(cl, clocks[r.Intn(len(clocks))])
-					}
-				}
+				cl = clocks
 			}
 			for _, c := range cl {
-				reqs := genRequests(r, s, aliases, budget, originPort)
+				bud := budget
+				if s.TimeFrame != nil {
+					bud = tfBudget
+				}
+				reqs := genRequests(r, s, aliases, bud, originPort)
 				if s.MITM {
 					// (a) tunnels that are established (right credentials, allowed host) carrying 1..4 generated
 					//     requests each; (b) every generated CONNECT on its own, with one inner request
@@ -860,16 +907,12 @@ func main() {
 		}
 	}
 
-	// run: one proxy per (spec, clock)
-	type key struct {
-		id    int
-		clock [2]int
-	}
+	// run: one proxy per configuration; the clock moves on between sessions
 	var cases []Case
 	denied := map[int]map[string]bool{} // spec id -> hostnames the deny matcher matches
 	idnaTable := map[string]string{}     // non-ASCII host name -> what idna.Lookup.ToASCII maps it to
 	specByID := map[int]Spec{}
-	var curKey key
+	curID := -1
 	var cur *accessrig.Proxy
 	var curMatcher forwarder.Matcher
 	seen := map[string]bool{}
@@ -879,26 +922,36 @@ func main() {
 			cur = nil
 		}
 	}
+	var curClock, prevClock [3]int
+	var curFirst, prevFirst []accessrig.RawReq // first plain session run at the current / previous clock value
 	for _, j := range jobs {
-		k := key{j.spec.ID, j.clock}
-		if cur == nil || k != curKey {
+		if cur == nil || j.spec.ID != curID {
 			stop()
-			now = clockTime(j.clock[0], j.clock[1])
 			seen = map[string]bool{}
 			ps, mt, err := j.spec.proxySpec(rig, seen)
 			if err != nil {
 				panic(err)
 			}
+			now = clockTime(j.clock[0], j.clock[1], j.clock[2])
 			p, err := rig.StartProxy(ps)
 			if err != nil {
 				panic(err)
 			}
-			cur, curKey, curMatcher = p, k, mt
+			cur, curID, curMatcher = p, j.spec.ID, mt
 			specByID[j.spec.ID] = j.spec
 			if denied[j.spec.ID] == nil {
 				denied[j.spec.ID] = map[string]bool{}
 			}
+			curClock, prevClock, curFirst, prevFirst = j.clock, j.clock, nil, nil
 		}
+		if j.clock != curClock {
+			prevClock, prevFirst = curClock, curFirst
+			curClock, curFirst = j.clock, nil
+		}
+		if curFirst == nil && j.connect == nil {
+			curFirst = j.session
+		}
+		now = clockTime(j.clock[0], j.clock[1], j.clock[2])
 		var obs []accessrig.Obs
 		sess, reqSpecs := j.session, j.reqs
 		if j.connect != nil {
@@ -949,6 +1002,10 @@ func main() {
 				truth = probeLocal(req.URL.Host)
 			}
 			c := Case{Spec: j.spec, Clock: j.clock, Session: j.session, Index: i, Req: reqSpecs[i], Obs: o, Targets: targets, Truth: truth}
+			if prevFirst != nil && prevClock != j.clock {
+				pc := prevClock
+				c.PrevClock, c.PrevSession = &pc, prevFirst
+			}
 			if j.connect != nil {
 				c.Connect, c.Index = j.connect, i-1
 			}
